@@ -521,7 +521,10 @@ def recorded_position_rule(ctx, chk, GA, E):
                         comps.extend(a.elems if getattr(a, "k", None) == "tup" else [a])
                     raw = [c for c in comps if isinstance(c, Num) and c.poly and all(isinstance(t_, tuple) and t_ and all(str(x_).startswith(("@L", "@R")) for x_ in t_) for t_ in c.poly)]
                     via = [x for x in path.effects[:i] if x.kind == "mapper" and x.op not in ("add_entry", "set_source", "lock_source", "unlock_source")]
-                    if raw:
+                    if raw and via and all(lock_aware(x.op) for x in via):
+                        chk.undecided_("C16.R10", f"{label}:record", "the record keeps a bare lookaround next to a position obtained from the source mapper; which of the two the driver "
+                                       "reports is not followed")
+                    elif raw:
                         chk.violation("C16.R10", label, "recorded-position-relative-to-expansion",
                                       f"{label}: the forward-reference record keeps the production's own lookaround; inside a macro expansion that is an offset into the expanded text, "
                                       f"so the driver's 'used but not defined' report cites whatever source line lies at that offset (or leaves the text: `end - pos` underflows)", where)
